@@ -15,6 +15,7 @@ WHAT = {
  'N3': 'data.py TexNode: child wrapping in one private helper, shared assertions of the .string getter/setter, replace restructured, small tidy-ups',
  'N4': 'data.py TexExpr/TexEnv/TexCmd/TexArgs: __match__ restructured, yield from, comprehension instead of filter, one format string in TexCmd.__str__, __coerce static, __index_all renamed, TexArgs.insert early return',
  'N5': 'utils.py: Token concatenation/strip helpers, Buffer.peek/__getitem__ locals, CharToLineOffset.__call__ early return',
+ 'N7': 'tokens.py (hand-written): `minted` added to SKIP_ENV_NAMES and the tuple reordered - a table edit that breaks no property (the generated tables follow it; TableSpec states membership only)',
  'N6': 'category.py/tex.py/__init__.py: _category_of helper, named pipeline stages in read(), local renames',
 }
 ALL = ['C%02d' % i for i in range(1, 21)]
